@@ -1363,6 +1363,24 @@ def integer_grid(sess, rng, ops, kinds=KINDS):
                 sess.predict(op, mh, teams)
 
 
+def integer_grid_rate(sess, rng, kinds=KINDS):
+    """rate on every three-team game whose team totals are small whole numbers (see integer_grid), under a random outcome."""
+    import itertools
+    grid = [-2.0, -1.0, 0.0, 1.0, 3.0]
+    for kind in kinds:
+        for k, tri in enumerate(itertools.product(grid, repeat=3)):
+            if k % 25 == 0:
+                sess.reset()
+                mh = sess.model(kind, tau=rng.choice([0.0, 25.0 / 300.0, 1.0]))
+            sg = rng.choice([1.0, 2.0, 0.5])
+            if rng.random() < 0.3:
+                vals = [[(m - 1.0, sg), (1.0, sg)] for m in tri]
+            else:
+                vals = [[(int(m) if rng.random() < 0.3 else m, sg)] for m in tri]
+            okw, _ = encode_order(rng, weak_order(rng, 3))
+            sess.rate(mh, make_teams(mh, vals), **okw)
+
+
 def api_groups(sess):
     """C19: the five classes expose the same operations with the same signatures."""
     sess.reset()
